@@ -6,7 +6,7 @@
  *  - recv_messages(sock, msgs, n): for each message in turn, copies min(pending, total buffer capacity)
  *    bytes into the message's buffers (sequentially), sets msg->length; stops at the first message that
  *    would get 0 bytes (nothing pending, or zero capacity).  Returns the number of messages filled
- *    (0 = would block).  Every request is logged through ss_on_read(req, got).
+ *    (0 = would block).  Every request is logged through ss->on_read(req, got) before the copy.
  *  - before copying, an optional guard (ss->guard) is asked whether [dst, dst+k) may be written; if it
  *    refuses, ss_on_fault() is called (it must not return: the harness longjmps out of the layer).
  *  - send_messages / send_messages_reliable: each message is flattened and handed to ss_on_send(bytes,len,
@@ -56,6 +56,7 @@ static gint ss_recv_messages (NiceSocket *sock, NiceInputMessage *msgs, guint n)
     for (j = 0; (m->n_buffers >= 0 && j < m->n_buffers) || (m->n_buffers < 0 && m->buffers[j].buffer != NULL); j++)
       cap += m->buffers[j].size;
     gsize k = MIN (cap, ss_pending (ss));
+    if (ss->on_read) ss->on_read (ss, cap, k);
     /* guard first, so that an out-of-range destination is reported before anything is written */
     {
       gsize left = k;
@@ -70,7 +71,6 @@ static gint ss_recv_messages (NiceSocket *sock, NiceInputMessage *msgs, guint n)
       memcpy (m->buffers[j].buffer, ss->pend + ss->pend_off, c);
       ss->pend_off += c; got += c;
     }
-    if (ss->on_read) ss->on_read (ss, cap, got);
     if (got == 0) break;
     m->length = got;
     if (m->from) memset (m->from, 0, sizeof (NiceAddress));
